@@ -87,6 +87,10 @@ class IndexSum(Operator):
     def _simplify_indexed(self, multiindex):
         """Return a simplified Expr used in the constructor of Indexed(self, multiindex)."""
         A, i = self.ufl_operands
+        if i[0] in multiindex.indices():
+            # The summation index is bound by this sum: the same Index
+            # object used to index the sum from outside must stay outside
+            return Operator._simplify_indexed(self, multiindex)
         return IndexSum(Indexed(A, multiindex), i)
 
     def evaluate(self, x, mapping, component, index_values):
